@@ -38,7 +38,9 @@ def _cls(kind, n):
     if key in _CLASSES:
         return _CLASSES[key]
     fields = [f"f{i}" for i in range(1, n + 1)]
-    name = f"K_{kind}_{key[1]}"
+    # every class of the battery has the same name and lives in a module of the same name (rows of different tables, a class
+    # statement run again): classes are told apart by identity, never by their qualified name
+    name = "Row"
     ns: dict = {}
     if kind in ("dc", "dcslots"):
         body = "".join(f"    {f}: typing.Any\n" for f in fields)
@@ -133,7 +135,7 @@ def _cls(kind, n):
     else:
         raise ValueError(kind)
     import sys
-    mod = types.ModuleType("verif_iter_" + name)
+    mod = types.ModuleType("verif_iter_rows")
     sys.modules[mod.__name__] = mod
     exec(compile(src, "<verif-generated>", "exec", dont_inherit=True), mod.__dict__)
     _CLASSES[key] = mod.__dict__[name]
